@@ -2,6 +2,7 @@ package vapp
 
 import (
 	"encoding/json"
+	"math/big"
 	"regexp"
 	"strings"
 
@@ -71,7 +72,14 @@ func (p *projector) bid(ks string, v []byte) bool {
 			}
 		} else {
 			r.Offer = map[int64]string{int64(bd.TypeBidOffer): "bid", int64(bd.TypeCounterOffer): "counter"}[o.OfferType]
-			r.Amt = p.num(strings.TrimSuffix(ks[:32], "_")+".amount", o.Amount.Value)
+			key := strings.TrimSuffix(ks[:32], "_") + ".amount"
+			if b, ok := new(big.Int).SetString(strings.Trim(string(o.Amount.Value), "\""), 10); ok && o.OfferType == int64(bd.TypeCounterOffer) && b.Sign() >= 0 && (!b.IsInt64() || b.Int64() >= Lim) {
+				// the owner's counter offer is an asking price, not an amount anybody holds: any magnitude is legitimate, it is
+				// clamped without being flagged (a bid is locked money and is flagged)
+				r.Amt = Lim - 1
+			} else {
+				r.Amt = p.num(key, o.Amount.Value)
+			}
 			r.Status = o.AmountStatus
 		}
 		s.Bids[m[2]] = r
